@@ -713,7 +713,6 @@ def _rhs_step(m, step):
 def run_rhs(case):
     """formulate -> redundant declaration -> formulate (-> redundant declaration -> formulate) of a model with the
     constraint  k * atom(x) <= / >= b  against a fresh build of the final declarations and the closed form."""
-    import numpy as np
     cm, M = _rs['cm'], _rs['M']
     spec = {'host': case['host'], 'atom': case['atom'], 'k': case['k'], 'form': case['form'], 'kind': case['rhs']}
     hist = case['hist']
